@@ -7,7 +7,9 @@ import (
 	"sync"
 	"time"
 
+	"github.com/btcsuite/btcd/blockchain"
 	"github.com/btcsuite/btcd/btcec/v2/schnorr"
+	"github.com/btcsuite/btcd/btcutil/v2"
 	"github.com/btcsuite/btcd/txscript/v2"
 
 	"verif/harness/internal/tla"
@@ -499,8 +501,31 @@ func (b *binder) runSeqCase(cs *seqCase, sp0 *spend, cc *Conc) error {
 		c.Violation(key, what+": "+desc, rep(extra))
 		return nil
 	}
+	// the same spend through blockchain.ValidateTransactionScripts (shared
+	// signature and hash caches: the second call is served from them)
+	for round := 0; round < 2; round++ {
+		verr := b.validateTx(&sp)
+		c.AddEval(1)
+		if (verr == nil) != cs.ok {
+			c.Violation("validate-tx-scripts:"+cs.sc.name, fmt.Sprintf("blockchain.ValidateTransactionScripts = %v (call %d) but the specification says %s: %s", errOrNil(verr), round+1, verdict, desc), rep(nil))
+			return nil
+		}
+	}
 	if r.newErr == nil && r.execOK != r.ok && r.stepErr == nil {
 		c.Violation("execute-vs-step:seq:"+cs.sc.name, fmt.Sprintf("Execute() and a Step() loop disagree (%v vs %v): %s", errOrNil(r.execErr), r.errString(), desc), rep(nil))
 	}
 	return nil
+}
+
+// validateTx runs the spend through blockchain.ValidateTransactionScripts with
+// the binder's shared caches.
+func (b *binder) validateTx(sp *spend) (err error) {
+	defer func() {
+		if p := recover(); p != nil {
+			err = fmt.Errorf("panic: %v", p)
+		}
+	}()
+	view := blockchain.NewUtxoViewpoint()
+	view.AddTxOuts(btcutil.NewTx(sp.funding()), 1)
+	return blockchain.ValidateTransactionScripts(btcutil.NewTx(sp.tx()), view, sp.flags, b.sigCache, b.hashCache)
 }
